@@ -22,12 +22,20 @@ FaultFail(x) == FailIf(x.fault # 0, "C12", "memory fault inside the call: caller
 
 R(fails, nst) == [fails |-> fails, st |-> nst]
 
+\* C14 inside a session: the out-of-memory code is returned exactly when a request of that call failed; a failed call changes
+\* nothing but the URI it was given for output or in-place modification (which the caller then frees: the slot is empty afterwards)
+RC_MALLOC == 3
+OomFails(x) == FailIf(x.memfail /\ x.rc # RC_MALLOC, "C14", "an allocation request failed but the call did not return the out-of-memory code")
+            \o FailIf(~x.memfail /\ x.rc = RC_MALLOC, "C14", "out-of-memory code although no request failed")
+Oom(x) == x.memfail /\ x.rc = RC_MALLOC
+
 StepOf(x) ==
   CASE x.e = "SBuf" -> IF CanBuf(st, x.i) THEN R(<<>>, DoBuf(st, x.i, x.text)) ELSE R(HarnessErr("buffer already live"), st)
     [] x.e = "SParse" ->
          IF ~CanParse(st, x.s, x.i) THEN R(HarnessErr("parse not enabled"), st)
          ELSE LET t == st.buf[x.i].text  acc == Accepts(t) IN
               IF x.fault # 0 THEN R(FaultFail(x), st)
+              ELSE IF x.memfail \/ x.rc = RC_MALLOC THEN R(OomFails(x), IF x.rc = 0 THEN Put(st, x.s, ValOf(x.out), FALSE, {BufDep(x.i)}) ELSE st)
               ELSE IF (x.rc = 0) # acc THEN R(Fail("C01", "acceptance differs from the RFC 3986 grammar"), st)
               ELSE IF x.rc # 0 THEN R(<<>>, st)
               ELSE R(FailIf(~Same(x.out, Components(t)), "C02", "components differ from the RFC 3986 split")
@@ -37,7 +45,8 @@ StepOf(x) ==
     [] x.e = "SMakeOwner" ->
          IF ~CanMakeOwner(st, x.s) THEN R(HarnessErr("make-owner not enabled"), st)
          ELSE IF x.fault # 0 THEN R(FaultFail(x), st)
-         ELSE IF x.rc # 0 THEN R(Fail("C12", "make-owner failed without an allocation failure"), st)
+         ELSE IF Oom(x) THEN R(PreCheck(x.pre, x.s), DoFree(st, x.s))
+         ELSE IF x.rc # 0 \/ x.memfail THEN R(OomFails(x) \o FailIf(x.rc # 0 /\ x.rc # RC_MALLOC, "C12", "make-owner failed without an allocation failure"), st)
          ELSE R(PreCheck(x.pre, x.s)
                 \o FailIf(~Same(x.out, st.slot[x.s].val), "C12", "make-owner changed the content of the URI")
                 \o FailIf(x.out.own # 1, "C12", "not owner after make-owner")
@@ -46,12 +55,16 @@ StepOf(x) ==
     [] x.e = "SNormalize" ->
          IF ~CanNormalize(st, x.s) THEN R(HarnessErr("normalize not enabled"), st)
          ELSE IF x.fault # 0 THEN R(FaultFail(x), st)
-         ELSE IF x.rc # 0 THEN R(Fail("C08", "normalization failed without an allocation failure"), st)
+         ELSE IF Oom(x) THEN R(PreCheck(x.pre, x.s), DoFree(st, x.s))
+         ELSE IF x.rc # 0 \/ x.memfail THEN R(OomFails(x) \o FailIf(x.rc # 0 /\ x.rc # RC_MALLOC, "C08", "normalization failed without an allocation failure"), st)
          ELSE R(PreCheck(x.pre, x.s) \o V([e |-> "Normalize", val |-> x.pre, mask |-> x.m, rc |-> x.rc, out |-> x.out]),
                 DoNormalizeTo(st, x.s, x.m, ValOf(x.out)))
     [] x.e = "SAddBase" ->
          IF ~CanAddBase(st, x.d, x.r, x.b) THEN R(HarnessErr("add-base not enabled"), st)
          ELSE IF x.fault # 0 THEN R(FaultFail(x), st)
+         ELSE IF x.memfail \/ x.rc = RC_MALLOC THEN
+              R(PreCheck(x.prer, x.r) \o PreCheck(x.preb, x.b) \o OomFails(x)
+                \o FailIf(x.postr # x.prer \/ x.postb # x.preb, "C12", "a failed resolution modified a read-only operand"), st)
          ELSE LET ro == x.postr = x.prer /\ x.postb = x.preb
                   rec == IF x.rc = 0 THEN [e |-> "AddBase", r |-> x.prer, b |-> x.preb, opt |-> x.opt, rc |-> x.rc, t |-> x.out, text |-> x.text, ro |-> ro]
                                      ELSE [e |-> "AddBase", r |-> x.prer, b |-> x.preb, opt |-> x.opt, rc |-> x.rc, ro |-> ro] IN
@@ -61,6 +74,9 @@ StepOf(x) ==
     [] x.e = "SRemoveBase" ->
          IF ~CanRemoveBase(st, x.d, x.s, x.b) THEN R(HarnessErr("remove-base not enabled"), st)
          ELSE IF x.fault # 0 THEN R(FaultFail(x), st)
+         ELSE IF x.memfail \/ x.rc = RC_MALLOC THEN
+              R(PreCheck(x.pres, x.s) \o PreCheck(x.preb, x.b) \o OomFails(x)
+                \o FailIf(x.postr # x.pres \/ x.postb # x.preb, "C12", "a failed reference creation modified a read-only operand"), st)
          ELSE LET ro == x.postr = x.pres /\ x.postb = x.preb
                   rec == IF x.rc = 0 THEN [e |-> "RemoveBase", s |-> x.pres, b |-> x.preb, mode |-> x.mode, rc |-> x.rc, ref |-> x.out, text |-> x.text, ro |-> ro, leak |-> 0, backrc |-> 1]
                                      ELSE [e |-> "RemoveBase", s |-> x.pres, b |-> x.preb, mode |-> x.mode, rc |-> x.rc, ro |-> ro] IN
